@@ -53,6 +53,9 @@ var c15Pieces = []piece{
 	{"\"", "\"", "quote"}, {"`", "`", "quote"}, {"/", "/", "plain"}, {"u", "u", "plain"}, {"n", "n", "plain"},
 	{`\'`, "'", "escape"}, {`\"`, "\"", "escape"}, {"\\`", "`", "escape"}, {`\\`, `\`, "escape"}, {`\/`, "/", "escape"}, {`\f`, "\f", "escape"}, {`\n`, "\n", "escape"}, {`\r`, "\r", "escape"}, {`\t`, "\t", "escape"},
 	{"\\u00e9", "é", "escape:u"}, {"\\u0041", "A", "escape:u"}, {"\\u20AC", "€", "escape:u"}, {"\\u0027", "'", "escape:u"},
+	// text that looks like the tail of an escape, and unicode escapes of the escape characters themselves
+	// (a decoder working in two passes decodes these twice)
+	{"u0041", "u0041", "plain"}, {"u00e9", "u00e9", "plain"}, {"\\u005c", "\\", "escape:u"}, {"\\u005C", "\\", "escape:u"}, {"t", "t", "plain"}, {"\\u0022", "\"", "escape:u"}, {"\\u0060", "`", "escape:u"},
 }
 
 func c15StrLit(env *core.Env, idxs []int) {
